@@ -418,6 +418,9 @@ def gen_history(world: World, kind: str, length: int, weights=None, irregular_bi
                 world.expect[-1] = "ok " + rec["after"][main] + " warn=" + ("_" if not rec["warn"] else ",".join(rec["warn"]))
         elif op == "load":
             m = rng.choice([0, 1, 2, 4, 6])
+            sub_range = irregular and o.sample_count >= 2 and rng.random() < 0.35
+            if sub_range:
+                m = o.sample_count          # as many array elements as timestamps, of which only a part is loaded
             t2 = tag if rng.random() < max(0.92, valid_bias) else rng.choice(SUPPORTED[kind])
             cols2 = ncols if rng.random() < max(0.9, valid_bias) else rng.randint(1, 3)
             nd = (2 if rng.random() < 0.5 or cols2 != 1 else 1) if digital else (1 if rng.random() < 0.93 else 2)
@@ -428,6 +431,9 @@ def gen_history(world: World, kind: str, length: int, weights=None, irregular_bi
             if rng.random() < valid_bias:
                 st = rng.choice([None, 0, min(1, m)])
                 cnt = rng.choice([None, None, max(0, m - (st or 0))])
+            if sub_range:
+                st = rng.choice([0, 1])
+                cnt = rng.choice([m - st - 1, m - st - 1, None if st else m - 1])
             world.run(f"wload {main} {world.arr_token(arr)} {1 if cp else 0} {opt(st)} {opt(cnt)}",
                       lambda: o.load_data(arr, copy=cp, start_index=st, sample_count=cnt), main, kind,
                       args_state=lambda: arr.tobytes())
